@@ -340,6 +340,69 @@ def run(rep, tier, seed):
             if "rep_diff" in rec:
                 rep.violation("decision-table-not-repeatable", "second evaluation of the same decision table evaluator differs: %s" % json.dumps(rec["rep_diff"])[:300], {"variant": "dbg", "case": case})
     rep.extra["decision_table_evaluations_over_a_caller_scope"] = tevals
+    # ---- 6. parse histories on ONE scope object ------------------------------------------------
+    # Texts are parsed and evaluated one after the other over one long-lived scope, with no re-binding in between; texts that
+    # INTRODUCE local names (iteration variables, formal parameters, context keys - spelled like the first word of a built-in
+    # or of a bound multi-word name, or like the join of two bound names) alternate with texts that USE those spellings.
+    # Whatever a parse leaves behind on the scope object (or on the thread) that its rendering does not show changes how a later
+    # text is read. Oracle: the same text over a fresh scope object with the same bindings, on a fresh thread.
+    hb = [["a", {"n": "7"}], ["b", {"n": "5"}], [["date", "limit"], {"n": "3"}], [["string", "set"], [{"s": "q"}]], [["index", "base"], {"n": "1"}], ["xs", [{"n": "1"}, {"n": "2"}, {"n": "3"}]],
+          [["years", "of", "service"], {"n": "4"}], [["time", "left"], {"n": "9"}], [["list", "size"], {"n": "2"}]]
+    words = ["date", "string", "index", "years", "time", "list", "day", "month", "substring", "a-b", "a+b", "a*b", "a/b", "xs", "a", "sum", "count", "number", "not", "duration", "week"]
+    intro = [
+        "for %s in [1, 2] return %s", "some %s in [1, 2] satisfies %s = 2", "every %s in xs satisfies %s > 0", "(function(%s) %s)(4)", "{%s: 1, other: %s}.other",
+        "for q in [1], %s in [3] return [q, %s]", "[{%s: 2}][%s > 1]", "(function(p, %s) [p, %s])(1, 2)", "for %s in 1..2 return %s * 2",
+    ]
+    users = [
+        'date and time("2021-02-03T10:00:00")', 'date("2021-02-03")', 'string length("abc")', "index of([1, 2, 1], 1)", 'years and months duration(date("2020-01-01"), date("2021-03-01"))',
+        'time("10:00:00")', "list contains([1, 2], 2)", "day of week(date(2021, 2, 3))", 'month of year(date("2021-02-03"))', 'substring("hello", 2)', 'substring before("hello", "l")', "a-b", "a - b", "a+b", "a*b", "a/b",
+        "date limit + 1", "string set[1]", "index base * 2", "years of service - 1", "time left - a", "list size + b", "sum(xs)", "count(xs)", 'number("1", ".", ",")', "not(a > b)", 'duration("P1D")', 'week of year(date("2021-02-03"))',
+        "xs[1] + a", "for i in xs return i + a", "a between b and 9", "{k: a}.k - b",
+    ]
+    n_ph = 300 if tier == "quick" else 12000
+    phcases = []
+    for k in range(n_ph):
+        steps = []
+        for j in range(rng.randint(4, 10)):
+            if j % 2 == 0:
+                w = rng.choice(words)
+                # half of the introducers are parsed only (nothing is evaluated, so nothing is pushed onto the scope before the next parse)
+                steps.append({"text": rng.choice(intro) % (w, w), "introduces": w, "parse_only": rng.random() < 0.5})
+            else:
+                steps.append({"text": rng.choice(users)})
+        phcases.append({"op": "scopehist", "alone": True, "scope": [hb], "steps": steps})
+    phres, _ = runner.run_cases("dbg", phcases, rep.workdir, label="parse-histories", case_timeout=120)
+    ph_steps = ph_values = 0
+    for case, res in zip(phcases, phres):
+        _ok(res)
+        if "rs" not in res:
+            rep.violation(crash_signature(res, "c13-parse-history"), "parse history died: %s" % json.dumps(res)[:300], {"variant": "dbg", "case": case})
+            continue
+        last_intro = None
+        for k, (st, r) in enumerate(zip(case["steps"], res["rs"])):
+            rep.count()
+            ph_steps += 1
+            if r.get("v") is not None:
+                ph_values += 1
+                rep.seen(("parse-history", st["text"]))
+            one = {"variant": "dbg", "case": dict(case, steps=case["steps"][: k + 1])}
+            for flag in ("impure_parse", "impure_eval"):
+                if flag in r:
+                    rep.violation("history:%s" % flag, "`%s` changed the long-lived scope: %s" % (st["text"], json.dumps(r[flag])[:300]), one)
+            if "alone_differs" in r:
+                kind = "introducer" if "introduces" in st else "user"
+                rep.violation(
+                    "history:result-depends-on-earlier-parses:%s:after=%s" % (kind, (last_intro or "none").translate({ord(c): "_" for c in "+-*/"})),
+                    "`%s` over a scope object that earlier texts were parsed over gave %s; over a fresh scope object with the same bindings it gives %s [earlier texts: %s]"
+                    % (st["text"], json.dumps({x: r.get(x) for x in ("v", "perr", "berr") if x in r})[:200], json.dumps({x: r["alone_differs"].get(x) for x in ("v", "perr", "berr") if x in r["alone_differs"]})[:200], " ; ".join(x["text"] for x in case["steps"][:k])[:400]),
+                    one,
+                )
+            if "introduces" in st:
+                last_intro = st["introduces"]
+    rep.extra["parse_history_steps_compared_with_a_fresh_scope"] = ph_steps
+    rep.extra["parse_history_steps_with_a_value"] = ph_values
+    if ph_values < ph_steps // 3:
+        rep.inconclusive_reason("parse histories: only %d of %d steps gave a value" % (ph_values, ph_steps))
     if rep.evaluations < 10000 or reps < 1000 or mrep < 1000:
         rep.inconclusive_reason("too few observations (evaluations=%d, history repeats=%d, model repeats=%d)" % (rep.evaluations, reps, mrep))
 
